@@ -588,6 +588,24 @@ func (r *runner) scenario(ctx context.Context, rnd *hx.Rand, bc *beacon, client 
 	nops := 6 + rnd.Intn(10)
 	lastTrig := map[int64]tickOut{}
 	pending := rnd.Intn(14) // transactions queued before the first slot
+	// now and then the queue starts with a window that uses the gas limit up exactly, followed by a transaction
+	// that asks for no gas at all (the sequencer contract admits it; it is below the configured minimum)
+	scriptGas := []int64{}
+	if e.gasLimit <= 1<<32 && e.gasLimit >= e.minGas && rnd.Chance(10) {
+		k := int64(e.gasLimit / e.minGas)
+		for j := int64(0); j < k; j++ {
+			g := int64(e.minGas)
+			if j == 0 {
+				g += int64(e.gasLimit % e.minGas)
+			}
+			scriptGas = append(scriptGas, g)
+		}
+		scriptGas = append(scriptGas, 0, int64(e.minGas))
+		if pending < len(scriptGas) {
+			pending = len(scriptGas)
+		}
+		r.res.Count("scenario:exactly-full-window-then-zero-gas")
+	}
 	for i := 0; i < nops+pending && len(r.res.Violations) == 0; i++ {
 		k := rnd.Intn(100)
 		if i < pending {
@@ -620,6 +638,10 @@ func (r *runner) scenario(ctx context.Context, rnd *hx.Rand, bc *beacon, client 
 			}
 			if gas < 0 {
 				gas = 0
+			}
+			if len(scriptGas) > 0 {
+				eon, gas = 0, scriptGas[0]
+				scriptGas = scriptGas[1:]
 			}
 			idx := nextIndex[eon]
 			if rnd.Chance(1) {
